@@ -999,12 +999,56 @@ fn run_wrap(text: &str, allow: bool) -> Resp {
             None => why.push("accessors panic on the re-parsed result".into()),
             Some((dout, _)) => {
                 // same dependencies: same multiset of entries, each the same multiset of alternatives; substvars kept
+                // "identical version": the same Debian version, however it is written — an absent
+                // epoch is 0, an absent revision is 0, leading zeros of a number do not count. The key
+                // is structured (epoch, upstream, revision), NOT the respelt text: `0:1:2` and `1:2`
+                // stay different (after seeded change C13-r7m1, whose harmless half — `0:1` printed
+                // as `1` — is not a change of meaning)
+                let vkey = |t: &str| -> String {
+                    let strip = |part: &str| -> String {
+                        let mut out = String::new();
+                        let cs: Vec<char> = part.chars().collect();
+                        let mut i = 0;
+                        while i < cs.len() {
+                            if cs[i].is_ascii_digit() {
+                                let mut j = i;
+                                while j < cs.len() && cs[j].is_ascii_digit() {
+                                    j += 1;
+                                }
+                                let run: String = cs[i..j].iter().collect();
+                                let t = run.trim_start_matches('0');
+                                out.push_str(if t.is_empty() { "0" } else { t });
+                                i = j;
+                            } else {
+                                out.push(cs[i]);
+                                i += 1;
+                            }
+                        }
+                        out
+                    };
+                    match debversion::Version::from_str(t) {
+                        Ok(v) => format!(
+                            "{}\u{1}{}\u{1}{}",
+                            v.epoch.unwrap_or(0),
+                            strip(&v.upstream_version),
+                            strip(v.debian_revision.as_deref().unwrap_or("0"))
+                        ),
+                        Err(_) => format!("?{}", t),
+                    }
+                };
                 let norm = |d: &[Den]| -> Vec<Den> {
                     let mut v: Vec<Den> = d
                         .iter()
                         .map(|x| match x {
                             Den::Alts(a) => {
-                                let mut a = a.clone();
+                                let mut a: Vec<RelM> = a
+                                    .iter()
+                                    .map(|r| {
+                                        let mut r = r.clone();
+                                        r.version = r.version.map(|(op, v)| (op, vkey(&v)));
+                                        r
+                                    })
+                                    .collect();
                                 a.sort();
                                 Den::Alts(a)
                             }
@@ -1331,6 +1375,14 @@ pub fn generate_c13(tier: &str, seed: u64, out: &mut Out) {
     }
     for t in ["${x:y}", "${x:y}, a", "b, ${x:y}, a", "a, ${misc:Depends}", "${shlibs:Depends}, ${misc:Depends}, b | a", "a, ${x:y},", "${x:y} , a"] {
         out.req("rel.wrap", &[es(t), "1".into()]);
+    }
+    // versions whose text changes meaning when a zero epoch / zero revision is dropped (a ':' or '-'
+    // inside the upstream part), next to the harmless respellings (after seeded change C13-r7m1)
+    for v in ["0:1:2", "0:1:2-3", "1.0-rc1-0", "0:1.0-rc1-0", "0:1", "1.0-0", "01.5", "0:01.5-00"] {
+        for op in [">=", "=", "<<"] {
+            out.req("rel.wrap", &[es(&format!("a ({} {})", op, v)), "0".into()]);
+            out.req("rel.wrap", &[es(&format!("b, a ({} {}) | c", op, v)), "0".into()]);
+        }
     }
     // relations that compare equal but are written differently (architecture order, explicit zero
     // epoch, version spelling), in every spacing variant and both orders, as alternatives and as
